@@ -33,6 +33,7 @@ type dbReplica struct {
 	db       database.DB
 	last     []byte // last export fetched for this replica (for duplicated deliveries)
 	lastSkip bool
+	lastID   uint64
 }
 
 type syncHarness struct {
@@ -155,7 +156,7 @@ func (h *syncHarness) fetch(r *dbReplica, allowFirst, skipIntegrity bool) {
 		allow()
 	}
 	if len(bs) > 0 {
-		r.last, r.lastSkip = bs, skipIntegrity
+		r.last, r.lastSkip, r.lastID = bs, skipIntegrity, req.Tx
 		h.inv(fmt.Sprintf("before ReplicateTx on replica %d", r.i))
 		before, _ := r.db.CurrentState()
 		hdr, err := r.db.ReplicateTx(context.Background(), bs, skipIntegrity, false)
@@ -188,12 +189,29 @@ func (h *syncHarness) dup(r *dbReplica) {
 	before, _ := r.db.CurrentState()
 	_, err := r.db.ReplicateTx(context.Background(), r.last, r.lastSkip, false)
 	after, _ := r.db.CurrentState()
-	if err == nil || !strings.Contains(err.Error(), "tx already committed") {
-		h.failf("replica %d: duplicated delivery: err=%v", r.i, err)
+	if after.TxId < before.TxId {
+		h.failf("replica %d: committed id went back %d -> %d", r.i, before.TxId, after.TxId)
 	}
 	// (the committed id may move on its own: an allowed commit is performed by the syncer)
-	if after.TxId < before.TxId || before.PrecommittedTxId != after.PrecommittedTxId || !bytes.Equal(before.PrecommittedTxHash, after.PrecommittedTxHash) {
-		h.failf("replica %d: duplicated delivery changed the state", r.i)
+	unchanged := before.PrecommittedTxId == after.PrecommittedTxId && bytes.Equal(before.PrecommittedTxHash, after.PrecommittedTxHash)
+	switch {
+	case r.lastID <= before.PrecommittedTxId:
+		// a true duplicate
+		if err == nil || !strings.Contains(err.Error(), "tx already committed") {
+			h.failf("replica %d: duplicated delivery of tx %d (precommitted %d): err=%v", r.i, r.lastID, before.PrecommittedTxId, err)
+		}
+		if !unchanged {
+			h.failf("replica %d: duplicated delivery changed the state", r.i)
+		}
+	case err == nil:
+		// the previous delivery had been refused (window full): this one is the retry
+		if after.PrecommittedTxId != r.lastID {
+			h.failf("replica %d: retried delivery of tx %d accepted, precommitted id %d", r.i, r.lastID, after.PrecommittedTxId)
+		}
+	default:
+		if !unchanged {
+			h.failf("replica %d: retried delivery of tx %d refused (%v) but the state changed", r.i, r.lastID, err)
+		}
 	}
 }
 
